@@ -8,7 +8,7 @@ import CohdlVerif.Model.C02
     lower EXPR                       -> the VHDL expression the model expects (temporaries inlined), ports p<i>
   EXPR ::= (p i T) | (lit T v) | (i k) | (ar OP a b) | (bo OP a b) | (inv a) | (neg a) | (abs a) | (cmp OP a b)
          | (shl a n) | (shr a n) | (cat a b) | (idx a i) | (slc a hi lo) | (idxrt a n) | (sgn a) | (uns a) | (bv a)
-         | (rsz a w) | (truth a) | (not a) | (and a b) | (or a b) | (ite c a b) | (sel arg key e rest)
+         | (rsz a w) | (conv a T) | (truth a) | (not a) | (and a b) | (or a b) | (ite c a b) | (sel arg key e rest)
 -/
 namespace CohdlVerif.C02
 
@@ -70,6 +70,7 @@ partial def parseExpr : Sexp → Option Expr
   | .list [.atom "ite", c, a, b] => do pure (.ite (← parseExpr c) (← parseExpr a) (← parseExpr b))
   | .list [.atom "sel", arg, .atom k, e, r] => do
       pure (.sel (← parseExpr arg) (← k.toInt?) (← parseExpr e) (← parseExpr r))
+  | .list [.atom "conv", a, .atom t] => do pure (.conv (← parseExpr a) (← parseTy t))
   | _ => none
 
 def showErr : Err → String
